@@ -112,6 +112,9 @@ def gen_scenario(seed, family="mixed"):
         r = rnd.random()
         u0.append(["shutdown", True, False] if r < 0.6 else ["shutdown", False, False] if r < 0.75 else
                   ["drop"] if r < 0.87 else ["pyexit"])
+        if u0[-1] == ["shutdown", False, False] and rnd.random() < 0.6:
+            # a second, waited shutdown must still find the manager thread to wake and join
+            u0.append(["shutdown", True, False])
         return {"kind": "plain", "max_workers": mw, "timeout": rnd.choice([None, None, None, 5]), "tasks": tasks, "family": family,
                 "users": [u0], "sched": {"p_timeout": 0.1, "p_crash": 0.0, "max_crashes": 0}}
     if family == "saturateleak":
@@ -242,7 +245,8 @@ def gen_reusable(seed, family="reuse"):
             if rnd.random() < 0.45:
                 sc.append(call())
         if rnd.random() < (0.7 if big else 0.2):
-            sc.append(["shutdown", True, rnd.random() < 0.3])
+            # an explicit shutdown of the singleton - waited for or not - then the next request must replace it
+            sc.append(["shutdown", rnd.random() < 0.6, rnd.random() < 0.3])
             sc.append(call())
         users.append(sc)
     scen["users"] = users
